@@ -56,7 +56,7 @@ class ExprGen:
             return self.obj_expr(t[1], d)
         if t[0] == "bool":
             return self.bool_expr(d)
-        return self.num_expr(d)
+        return self.num_expr(d, int_only=(t[0] == "int"))
 
     def fluent_app(self, fd, d=0):
         return ["f", fd["name"]] + [self.arg_for(pt, d) for _, pt in fd.get("params", [])]
@@ -96,17 +96,20 @@ class ExprGen:
             return ["v", n, t]
         return self.fluent_app(r.choice(fls), d - 1)
 
-    def num_const(self):
+    def num_const(self, int_only=False):
         r = self.rng
-        if r.random() < 0.8:
+        if int_only or r.random() < 0.8:
             return ["int", r.randint(*self.const_range)]
         return ["real", r.choice(["1/2", "3/2", "-1/3", "5/2", "2/3"])]
 
-    def num_expr(self, d=1):
+    def num_expr(self, d=1, int_only=False):
         r = self.rng
         fls = [f for f in self.fl("num")
                if all(pt[0] != "user" or self.can_obj(pt[1]) for _, pt in f.get("params", []))]
         ifs = self.ifn("num")
+        if int_only:
+            fls = [f for f in fls if f["type"][0] == "int"]
+            ifs = [f for f in ifs if f["ret"][0] == "int"]
         if d <= 0 or not self.arith and r.random() < 0.7:
             c = [("c", 3)]
             if fls:
@@ -115,29 +118,29 @@ class ExprGen:
                 c.append(("if", 1))
             k = _wchoice(r, c)
             if k == "c":
-                return self.num_const()
+                return self.num_const(int_only)
             if k == "f":
                 return self.fluent_app(r.choice(fls), 0)
             return self.ifun_app(r.choice(ifs), 0)
         c = [("plus", 3), ("minus", 3), ("times", 2), ("leaf", 3)]
-        if self.div:
+        if self.div and not int_only:
             c.append(("div", 1))
         if ifs:
             c.append(("if", 1))
         k = _wchoice(r, c)
         if k == "leaf":
-            return self.num_expr(0)
+            return self.num_expr(0, int_only)
         if k == "plus":
-            return ["plus"] + [self.num_expr(d - 1) for _ in range(r.randint(2, 3))]
+            return ["plus"] + [self.num_expr(d - 1, int_only) for _ in range(r.randint(2, 3))]
         if k == "minus":
-            return ["minus", self.num_expr(d - 1), self.num_expr(d - 1)]
+            return ["minus", self.num_expr(d - 1, int_only), self.num_expr(d - 1, int_only)]
         if k == "times":
-            a = self.num_expr(d - 1)
-            b = self.num_const() if r.random() < 0.7 else self.num_expr(d - 1)
+            a = self.num_expr(d - 1, int_only)
+            b = self.num_const(int_only) if r.random() < 0.7 else self.num_expr(d - 1, int_only)
             return ["times", a, b] if r.random() < 0.5 else ["times", b, a]
         if k == "div":
             den = r.choice([["int", 2], ["int", -1], ["real", "1/2"], ["int", 3]])
-            return ["div", self.num_expr(d - 1), den]
+            return ["div", self.num_expr(d - 1, int_only), den]
         return self.ifun_app(r.choice(ifs), d - 1)
 
     def bool_atom(self, d=0):
